@@ -17,7 +17,7 @@ pools, pool values without pool sums that mention neither an index of the same s
 bound inside its summand.  What it excludes is run on the real code and recorded.
 Only property theorems and non-vacuity examples live here.
 -/
-import Ampverif.Lemmas.C18Depth
+import Ampverif.Lemmas.C18New
 
 namespace Ampverif.Props.C18
 open Ampverif.Model Ampverif.Lemmas.C18
@@ -215,6 +215,100 @@ theorem xreplace_index_is_identity (v : Variant) (hv : v.sound) (σ : List (Sym 
   simp only [xreplace, hp, if_true, this]
   rw [xreplace_nil v hv, xreplaceBinders_nil v hv]
 
+/-! ### 4b. the constructor `PoolSum.__new__` (`Model/ExprNew.lean`)
+
+`Pool` = what iterating the Python object handed over as a value pool yields + whether the object is
+a one-shot iterator (generator, `map`/`filter`/`zip` object, `iter(…)`) or re-iterable (list, tuple,
+range, set, dict view, `sympy.Tuple`).  `nv.sound`: the constructor iterates each pool once and drops
+nothing (the current source; the harness infers `nv` by probes and compares construction from every
+input kind with `psumNew`). -/
+
+/-- The constructor stores the summand and, for every index, exactly the values the pool object
+yields — same order, same multiplicity (duplicates included) — for EVERY kind of iterable. -/
+theorem new_stores_given_values (v : Variant) (nv : NewVariant) (hn : nv.sound) (b : Expr)
+    (ixs : List (Sym × Pool)) (h : ∀ p ∈ ixs, p.2.items ≠ []) :
+    psumNew v nv b ixs false = .ok (.psum b (ixs.map (fun p => (p.1, p.2.items)))) := by
+  rw [psumNew_sound v nv hn, convertIndices_ok nv hn.2 ixs h]; simp
+
+/-- `PoolSum(…, evaluate=True)` built from any kinds of iterables has the value of the explicit
+nested sum over the values the pools yield. -/
+theorem new_evaluate_denotes (I : Interp) (v : Variant) (hv : v.sound) (nv : NewVariant) (hn : nv.sound)
+    (b : Expr) (ixs : List (Sym × Pool))
+    (hw : wfSums (.psum b (ixs.map (fun p => (p.1, p.2.items)))) = true) (ρ : Env) :
+    ∃ e, psumNew v nv b ixs true = .ok e ∧
+      eval I e ρ = evalSum (evalBinders I (ixs.map (fun p => (p.1, p.2.items))) ρ) ρ (fun ρ' => eval I b ρ') := by
+  have hne : ∀ p ∈ ixs, p.2.items ≠ [] := by
+    intro p hp
+    have := (wfSums_psum hw).2.1 (p.1, p.2.items) (List.mem_map.mpr ⟨p, hp, rfl⟩)
+    exact this
+  refine ⟨evaluate v (.psum b (ixs.map (fun p => (p.1, p.2.items)))), ?_, evaluate_denotes I v hv b _ hw ρ⟩
+  rw [psumNew_sound v nv hn, convertIndices_ok nv hn.2 ixs hne]; simp
+
+/-- An index whose pool yields nothing (an empty list, an exhausted iterator) is rejected
+(`ValueError`): no `PoolSum` with an empty pool is ever constructed. -/
+theorem new_rejects_empty_pool (v : Variant) (nv : NewVariant) (hn : nv.sound) (b : Expr)
+    (ixs : List (Sym × Pool)) (ev : Bool) (h : ∃ p ∈ ixs, p.2.items = []) :
+    ∃ j ∈ names ixs, psumNew v nv b ixs ev = .noValues j := by
+  obtain ⟨j, hj, hm⟩ := convertIndices_error nv hn.2 ixs h
+  exact ⟨j, hm, by rw [psumNew_sound v nv hn, hj]⟩
+
+/-- `expr.func(*expr.args)` is the identity on pool sums. -/
+theorem rebuild_is_identity (v : Variant) (nv : NewVariant) (hn : nv.sound) (b : Expr) (ixs : List Binder)
+    (h : poolsNonempty ixs = true) : psumRebuild v nv (.psum b ixs) = .ok (.psum b ixs) := by
+  simp only [psumRebuild]
+  rw [psumNew_sound v nv hn, convertIndices_argPools nv hn.2 ixs h]; simp
+
+/-- `subs` rebuilds the pool sum through `__new__`; the result is the `subst1` of the term model:
+in particular every pool keeps its length, ALSO when the substitution makes pool entries equal. -/
+theorem subs_through_constructor (v : Variant) (hv : v.sound) (nv : NewVariant) (hn : nv.sound)
+    (x : Sym) (a b : Expr) (ixs : List Binder) (h : poolsNonempty ixs = true) :
+    subst1ViaNew v nv x a (.psum b ixs) = .ok (subst1 v x a (.psum b ixs)) := by
+  by_cases hx : x ∈ names ixs
+  · rw [subst1_psum_mem v hv x a b ixs hx]
+    simp [subst1ViaNew, hx]
+  · rw [subst1_psum_not_mem v hv x a b ixs hx]
+    have hc : (names ixs).contains x = false := by simpa using hx
+    simp only [subst1ViaNew, hc]
+    rw [psumNew_sound v nv hn, convertIndices_argPools nv hn.2 _
+      (poolsNonempty_of_sizes (subst1Binders_sizes v x a ixs) h)]
+    simp
+
+/-- the same for `xreplace`. -/
+theorem xreplace_through_constructor (v : Variant) (hv : v.sound) (nv : NewVariant) (hn : nv.sound)
+    (σ : List (Sym × Expr)) (b : Expr) (ixs : List Binder) (h : poolsNonempty ixs = true) :
+    xreplaceViaNew v nv σ (.psum b ixs) = .ok (xreplace v (.psum b ixs) σ) := by
+  have hp : v.poolSumProtectsBound = true := hv.2
+  simp only [xreplaceViaNew, xreplace, hp, if_true]
+  rw [psumNew_sound v nv hn, convertIndices_argPools nv hn.2 _
+    (poolsNonempty_of_sizes (xreplaceBinders_sizes v _ ixs) h)]
+  simp
+
+/-- multiplicity: a substitution never changes the number of values of a pool. -/
+theorem subs_keeps_pool_sizes (v : Variant) (x : Sym) (a : Expr) (σ : List (Sym × Expr)) (ixs : List Binder) :
+    (subst1Binders v x a ixs).map (fun p => p.2.length) = ixs.map (fun p => p.2.length) ∧
+    (xreplaceBinders v ixs σ).map (fun p => p.2.length) = ixs.map (fun p => p.2.length) :=
+  ⟨subst1Binders_sizes v x a ixs, xreplaceBinders_sizes v σ ixs⟩
+
+/-- `subs` through the constructor, then `doit` = `doit`, then the substitution (as values) — for
+every pool, in particular when `x ↦ a` makes two pool entries equal: both are summed. -/
+theorem subs_through_constructor_then_doit (I : Interp) (v : Variant) (hv : v.sound) (nv : NewVariant)
+    (hn : nv.sound) (x : Sym) (a b : Expr) (ixs : List Binder) (ha : noPsum a = true)
+    (hw : wfSums (.psum b ixs) = true) (hc : ∀ s ∈ syms a, s ∉ bound (.psum b ixs)) (n : Nat) (ρ : Env) :
+    ∃ e', subst1ViaNew v nv x a (.psum b ixs) = .ok e' ∧
+      eval I (doit v n e') ρ = eval I (doit v n (.psum b ixs)) (upd ρ x (eval I a ρ)) :=
+  ⟨_, subs_through_constructor v hv nv hn x a b ixs (poolsNonempty_of_wfSums hw),
+    subs_commutes_with_doit_value I v hv x a _ ha hw hc n ρ⟩
+
+/-- … and for `xreplace` (simultaneous; e.g. `{a: 2, b: 2}` on the pool `(a, b)`). -/
+theorem xreplace_through_constructor_value (I : Interp) (v : Variant) (hv : v.sound) (nv : NewVariant)
+    (hn : nv.sound) (σ : List (Sym × Expr)) (b : Expr) (ixs : List Binder)
+    (hw : wfSums (.psum b ixs) = true)
+    (hσ : ∀ p ∈ σ, wfSums p.2 = true ∧ ∀ s ∈ syms p.2, s ∉ bound (.psum b ixs)) (ρ : Env) :
+    ∃ e', xreplaceViaNew v nv σ (.psum b ixs) = .ok e' ∧
+      eval I e' ρ = eval I (.psum b ixs) (qEnv (evalPairs I σ ρ) ρ) :=
+  ⟨_, xreplace_through_constructor v hv nv hn σ b ixs (poolsNonempty_of_wfSums hw),
+    xreplace_is_simultaneous_update I v hv _ σ hw hσ ρ⟩
+
 /-! ### 5. witnesses: what the hypotheses exclude really fails -/
 
 def wi : Sym := ⟨"i", []⟩
@@ -312,5 +406,33 @@ example :
           (fun _ => 0) := by decide +kernel
 example : eval wI (doit Variant.current 2 wDependent) (fun _ => 0) = eval wI wDependent (fun _ => 0) :=
   doit_preserves_value wI _ (by decide) 2 wDependent _ (by decide +kernel)
+
+/-! ### 6. constructor witnesses: each unsound constructor variant breaks the property -/
+
+def wp : Sym := ⟨"p", []⟩
+def wq : Sym := ⟨"q", []⟩
+def wBody : Expr := .mul [.sym wx, .sym wi]
+def vTwoPass : NewVariant := ⟨true, false⟩
+def vDedup : NewVariant := ⟨false, true⟩
+def valueOf (r : NewResult) (ρ : Env) : Option Q := r.get?.map (fun e => eval wI (doit Variant.current 2 e) ρ)
+
+/-- a constructor that validates in a pass of its own builds an EMPTY sum from a one-shot iterator
+(value 0 instead of x·(1+2+3)); from a list it builds the right sum. -/
+theorem two_pass_constructor_witness :
+    valueOf (psumNew Variant.current vTwoPass wBody [(wi, ⟨[.rat 1, .rat 2, .rat 3], true⟩)] false) (fun _ => 5) = some 0
+    ∧ valueOf (psumNew Variant.current NewVariant.current wBody [(wi, ⟨[.rat 1, .rat 2, .rat 3], true⟩)] false) (fun _ => 5) = some 30
+    ∧ valueOf (psumNew Variant.current vTwoPass wBody [(wi, ⟨[.rat 1, .rat 2, .rat 3], false⟩)] false) (fun _ => 5) = some 30 := by
+  decide +kernel
+
+/-- a constructor that drops repeated pool values breaks `subs/xreplace ∘ doit = doit ∘ subs/xreplace`
+when the substitution identifies two pool entries, and sums literal duplicates once. -/
+theorem dedup_constructor_witness :
+    valueOf (xreplaceViaNew Variant.current vDedup [(wp, .rat 2), (wq, .rat 2)] (.psum wBody [(wi, [.sym wp, .sym wq])])) (fun _ => 5) = some 10
+    ∧ valueOf (xreplaceViaNew Variant.current NewVariant.current [(wp, .rat 2), (wq, .rat 2)] (.psum wBody [(wi, [.sym wp, .sym wq])])) (fun _ => 5) = some 20
+    ∧ valueOf (psumNew Variant.current vDedup wBody [(wi, ⟨[.rat 1, .rat 1], false⟩)] false) (fun _ => 5) = some 5 := by
+  decide +kernel
+
+example : NewVariant.current.sound := by decide
+example : poolsNonempty [(wi, [.sym wp, .sym wq])] = true := by decide
 
 end Ampverif.Props.C18
